@@ -1212,6 +1212,16 @@ func c09R7(c *Ctx) {
 	P := c.P
 	fRTT := P.Field("tubes", "sender", "RTT")
 	reap, la := P.Func("tubes", "(*Muxer).reapTube"), P.Func("tubes", "(*Reliable).enterLastAckState")
+	if la == nil {
+		// the helper may be inlined: the last-ack wait is armed by whichever function stores the lastAckTimer
+		if fT := P.Field("tubes", "Reliable", "lastAckTimer"); fT != nil {
+			for _, w := range P.FieldWrites(fT, "tubes") {
+				if len(rttMultiples(w.Fn, fRTT)) > 0 {
+					la = w.Fn
+				}
+			}
+		}
+	}
 	if fRTT == nil || reap == nil || la == nil {
 		c.Undecided("C09.R7", "tubes.(*Muxer).reapTube / (*Reliable).enterLastAckState", "functions or sender.RTT not found")
 		return
